@@ -382,6 +382,51 @@ class MNx(Model):
             rec([source])
         return iter(out)
 
+    def has_path(self, g, source, target):
+        if source not in g or target not in g:
+            raise ModelRaise("NodeNotFound", f"{source} / {target}")
+        return source == target or target in g.descendants(source)
+
+    def strongly_connected_components(self, g):
+        seen = set()
+        out = []
+        for n in list(g._node):
+            if n in seen:
+                continue
+            comp = {n} | (g.descendants(n) & g.ancestors(n))
+            seen |= comp
+            out.append(comp)
+        return iter(out)
+
+    def simple_cycles(self, g):
+        cycles = []
+        nodes = sorted(g._node, key=str)
+        for i, s in enumerate(nodes):
+            allowed = set(nodes[i:])
+
+            def dfs(path):
+                x = path[-1]
+                for v in g._succ[x]:
+                    if v == s:
+                        cycles.append(list(path))
+                    elif v in allowed and v not in path:
+                        dfs(path + [v])
+
+            dfs([s])
+        return iter(cycles)
+
+    def dfs_preorder_nodes(self, g, source=None):
+        out, stack = [], [source] if source is not None else list(g._node)
+        seen = set()
+        while stack:
+            x = stack.pop()
+            if x in seen:
+                continue
+            seen.add(x)
+            out.append(x)
+            stack.extend(reversed(list(g._succ[x])))
+        return iter(out)
+
     def find_cycle(self, g, source=None):
         if g.is_dag():
             raise ModelRaise("NetworkXNoCycle", "no cycle")
@@ -431,7 +476,20 @@ class RefBlackBox(Model):
 class RefCircuit(Model):
     """Circuit with the documented semantics, over MDiGraph."""
 
+    _salt = 0
+    _serial = 0
+
+    def __hash__(self):
+        # identity hash, but deterministic: (salt, creation serial).  Rules that want to explore the
+        # iteration orders of sets of circuits re-run with different salts.
+        return hash((RefCircuit._salt * 7919 + self._id * 104729) % 1000003)
+
+    def __eq__(self, other):
+        return self is other
+
     def __init__(self, name=None, graph=None, blackboxes=None):
+        RefCircuit._serial += 1
+        self._id = RefCircuit._serial
         self.name = name if name else "circuit"
         self.graph = graph if graph else MDiGraph()
         self.blackboxes = blackboxes if blackboxes else {}
